@@ -1160,3 +1160,43 @@ def gen_tlc(rng, knobs=None):
             pass
     prog.append(['finish'])
     return opts, prog
+
+
+def gen_close_cb(rng, knobs=None):
+    """the application gives the connection up from INSIDE a notification: close() called from on_keepalive_timeout (the server went
+    silent) or from on_close (the connection was lost), with 0..3 interactions pending in either role; whatever the callback, the
+    client must end up closed: pending requests failed, on_close once, transport closed, nothing sent any more, close() returned"""
+    k = dict(knobs or {})
+    period = rng.choice([50, 100, 200])
+    cause = rng.choice(k.get('causes') or ['timeout', 'timeout', 'eof', 'error'])
+    life = rng.choice([period, 3 * period]) if cause == 'timeout' else 100000
+    opts = {'mode': 'tcp', 'keepalive_ms': period, 'lifetime_ms': life, 'read_buffer': rng.choice([7, 1024]),
+            'frag': rng.choice([None, 64])}
+    opts['close_on_timeout' if cause == 'timeout' else 'close_on_close'] = True
+    prog = [['start'], ['pump']]
+    for _ in range(rng.randint(0, 3)):
+        kind = rng.choice(['rr', 'stream', 'channel', 'fnf'])
+        ep = rng.choice(['c', 'c', 's'])
+        sp = spec(rng, big=rng.random() < 0.3)
+        if kind == 'rr':
+            prog.append(['rr', ep, sp, {'mode': 'later'}])
+        elif kind == 'fnf':
+            prog.append(['fnf', ep, sp])
+        elif kind == 'stream':
+            prog.append(['stream', ep, sp, 2, {'src': rng.choice(['scripted', 'generator']), 'items': items(rng, 5, big=False)}, True])
+        else:
+            prog.append(['channel', ep, sp, 2, {'src': 'scripted', 'pub': True, 'sub': True}, True, {'src': 'scripted'}, True])
+        if rng.random() < 0.7:
+            prog.append(['pump'])
+    if cause == 'timeout':
+        prog.append(['silence'])
+        prog.append(['advance', 2 * life + period + 5])
+        prog.append(['settle'])
+    else:
+        prog.append(['cut', rng.choice(['s', 's', 'c']), cause])
+        prog.append(['settle'])
+    prog.append(['advance', 2 * period + 10])
+    prog.append(['settle'])
+    prog.append(['advance', period + 1])
+    prog.append(['finish'])
+    return opts, prog
